@@ -768,7 +768,7 @@ fn main() {
     }
     if args.replay.is_none() {
         let mut rng = Rng::new(args.seed);
-        let n = args.cases.unwrap_or(if args.thorough { 5000 } else { 450 });
+        let n = args.cases.unwrap_or(if args.thorough { 5000 } else { 600 });
         for i in 0..n {
             let multi = i % 4 == 3;
             let case = if i % 5 == 4 { gen_opts(&mut rng, multi, true).to_case("cli") } else { gen_opts(&mut rng, multi, false).to_case("lib") };
